@@ -135,7 +135,7 @@ def compare_runs(cfg, ref, run, si, viol, stats, sig):
         if "results[" in path:
             try:
                 ridx = int(path.split("results[")[1].split("]")[0])
-                case = cfg["cases"][ridx % len(cfg["cases"])]
+                case = _case_of(cfg, ref["results"][ridx], ridx)
             except Exception:
                 case = None
         s = dict(sig, oracle=oracle)
@@ -248,6 +248,14 @@ def _collision_bound(prob_dists, num_data):
     return math.exp(max(logb, -745.0))
 
 
+def _case_of(cfg, r, ri):
+    """the estimator case a result belongs to: by its own result_index, not by its position in the list."""
+    idx = (r.get("result_index") or {}).get("case_index")
+    if not isinstance(idx, int) or not 0 <= idx < len(cfg["cases"]):
+        idx = ri % len(cfg["cases"])
+    return cfg["cases"][idx]
+
+
 def check_run_internal(cfg, run, viol, stats, sig_base, which):
     from quara.objects.qoperation_typical import generate_qoperation
     from quara.simulation import standard_qtomography_simulation as qsim
@@ -267,7 +275,7 @@ def check_run_internal(cfg, run, viol, stats, sig_base, which):
     # ---- I1: generated objects physical; depolarised formula
     seen = set()
     for ri, r in enumerate(results):
-        if ri % n_cases:
+        if (r.get("result_index") or {}).get("case_index", ri % n_cases) != 0:
             continue  # objects are per sample
         objs = [("true_object", r["true_object"], (ut, name))] + [(f"tester_objects[{i}]", t, tuple(b)) for i, (t, b) in enumerate(zip(r["tester_objects"], workload.testers_for(ut)))]
         for label, arr, base in objs:
@@ -294,7 +302,7 @@ def check_run_internal(cfg, run, viol, stats, sig_base, which):
                     return
     # ---- H5: repetitions are independent draws
     for ri, (r, rr) in enumerate(zip(results, raw)):
-        if ri % n_cases:
+        if (r.get("result_index") or {}).get("case_index", ri % n_cases) != 0:
             continue
         oc["H5"] = oc.get("H5", 0) + 1
         try:
@@ -329,7 +337,7 @@ def check_run_internal(cfg, run, viol, stats, sig_base, which):
             return
         d = first_diff(r["estimates"], got, f"results[{ri}].estimates")
         if d:
-            case = cfg["cases"][ri % n_cases]
+            case = _case_of(cfg, r, ri)
             viol.append({"oracle": "H6_reestimate", "what": f"{which}: re-estimating result {ri} from its stored empirical distributions gives different estimates at {d[0]} (max abs diff {d[2]})",
                          "detail": {"field": d[0], "max_abs_diff": d[2], "case": case}, "signature": dict(sig_base, oracle="H6_reestimate", estimator=case["estimator"], loss=case.get("loss"), via="memory")})
             return
@@ -382,7 +390,7 @@ def check_h7(cfg, run, viol, stats, sig_base, which, basis, dim):
         if "Physicality Violation" not in items:
             continue
         verdict = items["Physicality Violation"]
-        case = cfg["cases"][ri % n_cases]
+        case = _case_of(cfg, r, ri)
         kind = case["estimator"]
         para = case["para"]
         eq_thr = 1e-13 if para else 1e-5
